@@ -28,19 +28,20 @@ Norm(ax, rank) == IF ax < 0 THEN rank + ax ELSE ax       \* rank = rank of the *
 
 ScanCases ==
   {[n |-> n, rev |-> r, unroll |-> u, prole |-> pr, pax |-> pa, srole |-> sr, sax |-> sa, xax |-> xa, yax |-> ya,
-    splitp |-> sp, splitd |-> sd, phase |-> ph]
+    splitp |-> sp, splitd |-> sd, phase |-> ph, cci |-> cc]
      : n \in 1..MaxLen, r \in BOOLEAN, u \in {1, 2}, pr \in {"broadcast", "axis"}, pa \in Axes,
-       sr \in {"carry", "axis"}, sa \in Axes, xa \in {0, 1}, ya \in Axes, sp \in BOOLEAN, sd \in BOOLEAN, ph \in {"init", "apply"}}
+       sr \in {"carry", "axis", "broadcast"}, sa \in Axes, xa \in {0, 1}, ya \in Axes, sp \in BOOLEAN, sd \in BOOLEAN, ph \in {"init", "apply"},
+       cc \in BOOLEAN}        \* cci = check_constancy_invariants; a broadcast state collection is overwritten with a loop-invariant value
 \* vmap; srole "out": the state collection is declared with flax.typing.Out(sax) only and created inside the mapped call at apply time
 VmapCases ==
   {[n |-> n, rev |-> FALSE, unroll |-> 1, prole |-> pr, pax |-> pa, srole |-> sr, sax |-> sa, xax |-> xa, yax |-> ya,
-    splitp |-> sp, splitd |-> sd, phase |-> ph]
+    splitp |-> sp, splitd |-> sd, phase |-> ph, cci |-> TRUE]
      : n \in 1..MaxLen, pr \in {"broadcast", "axis"}, pa \in Axes, sr \in {"broadcast", "axis", "out"}, sa \in Axes,
        xa \in {0, 1}, ya \in Axes, sp \in BOOLEAN, sd \in BOOLEAN, ph \in {"init", "apply"}}
 \* remat_scan: nested scans of lengths l1 x l2 (n = l1 * l2 iterations of a carry-only body), params and state on axis 0
 RScanCases ==
   {[n |-> l1 * l2, l1 |-> l1, l2 |-> l2, rev |-> FALSE, unroll |-> 1, prole |-> "axis", pax |-> 0, srole |-> "axis", sax |-> 0, xax |-> 0, yax |-> 0,
-    splitp |-> TRUE, splitd |-> sd, phase |-> ph] : l1 \in 1..3, l2 \in 1..2, sd \in BOOLEAN, ph \in {"init", "apply"}}
+    splitp |-> TRUE, splitd |-> sd, phase |-> ph, cci |-> TRUE] : l1 \in 1..3, l2 \in 1..2, sd \in BOOLEAN, ph \in {"init", "apply"}}
 
 \* a broadcast collection cannot be created per iteration with split keys in a consistent way; flax requires:
 \* params broadcast => 'params' rng not split (init); params on an axis => split (distinct per-iteration parameters)
@@ -51,6 +52,12 @@ Sensible(c) == /\ (c.prole = "broadcast" => ~c.splitp)
                \* a carried collection cannot be created inside the scan body (its structure must exist before the loop):
                \* carried state is exercised at apply time only
                /\ (Mode = "scan" /\ c.srole = "carry" => c.phase = "apply")
+               \* a broadcast state collection that the body overwrites is exercised at apply time (at init broadcast
+               \* collections are created by a separate pass); the constancy check is switched off only in a subset of cases
+               /\ (Mode = "scan" /\ c.srole = "broadcast" => c.phase = "apply")
+               \* without the constancy pass flax supports no broadcast *outputs* (docstring of lift.scan): broadcast collections
+               \* must exist beforehand and are read-only - apply phase, no broadcast write
+               /\ (~c.cci => c.unroll = 1 /\ c.xax = 0 /\ c.phase = "apply" /\ c.srole # "broadcast")
 
 Init == case \in {c \in (CASE Mode = "scan" -> ScanCases [] Mode = "vmap" -> VmapCases [] OTHER -> RScanCases) : Sensible(c)}
 Next == UNCHANGED case
@@ -64,7 +71,10 @@ Order(c) == IF c.rev THEN [j \in 1..c.n |-> c.n - j] ELSE [j \in 1..c.n |-> j - 
 Base(c) == IF c.phase = "init" \/ c.srole = "out" THEN 10 ELSE 11
 CntBefore(c, j) == IF Mode = "scan" /\ c.srole = "carry" THEN Base(c) + (j - 1) ELSE Base(c)
 RECURSIVE CarryAfter(_, _)
-CarryAfter(c, j) == IF j = 0 THEN 1 ELSE 2 * CarryAfter(c, j - 1) + X(Order(c)[j]) + (CntBefore(c, j) + 1)
+\* the counter after the body's write: +1, or - for a broadcast state collection in scan - the loop-invariant value 20 (write-only)
+BWrite(c) == Mode = "scan" /\ c.srole = "broadcast"
+CntNow(c, j) == IF BWrite(c) THEN 20 ELSE CntBefore(c, j) + 1
+CarryAfter(c, j) == IF j = 0 THEN 1 ELSE 2 * CarryAfter(c, j - 1) + X(Order(c)[j]) + CntNow(c, j)
 \* vmap: every index starts from the same carry input 1
 CarryOf(c, j) == IF Mode \in {"scan", "rscan"} THEN CarryAfter(c, j) ELSE 2 * 1 + X(j - 1) + (Base(c) + 1)
 Y(c, j) == CarryOf(c, j) + 100 * X(IF Mode \in {"scan", "rscan"} THEN Order(c)[j] ELSE j - 1)
@@ -75,6 +85,7 @@ FinalCarry(c) == IF Mode \in {"scan", "rscan"} THEN CarryAfter(c, c.n) ELSE 0
 \* final state counter(s)
 FinalCnt(c) == IF Mode = "scan" /\ c.srole = "carry" THEN <<Base(c) + c.n>>
                ELSE IF c.srole \in {"axis", "out"} THEN [i \in 1..c.n |-> Base(c) + 1]
+               ELSE IF BWrite(c) THEN <<20>>
                ELSE <<Base(c) + 1>>           \* vmap broadcast state: every index writes the same value
 \* key identities: per iteration index i (0-based): split streams give distinct keys, unsplit the same
 DropKey(c, i) == IF c.splitd THEN i ELSE 0
